@@ -711,6 +711,33 @@ fn cmd_tofen() {
     }
 }
 
+
+/// accepts: stdin lines "FEN | s1 s2 ..." -> the strings find_move accepts (or "-")
+fn cmd_accepts() {
+    let mut o = out();
+    for line in std::io::stdin().lock().lines() {
+        let line = line.unwrap();
+        let (fen, strs) = match line.split_once('|') {
+            Some((f, m)) => (f.trim().to_string(), m.trim().to_string()),
+            None => continue,
+        };
+        let r = catch_unwind(AssertUnwindSafe(|| {
+            let mut b = Board::from_fen(&fen);
+            let mut acc: Vec<&str> = Vec::new();
+            for s in strs.split_whitespace() {
+                if b.find_move(s).is_ok() {
+                    acc.push(s);
+                }
+            }
+            if acc.is_empty() { "-".to_string() } else { acc.join(" ") }
+        }));
+        match r {
+            Ok(s) => writeln!(o, "{s}").unwrap(),
+            Err(_) => writeln!(o, "PANIC").unwrap(),
+        }
+    }
+}
+
 pub fn main(args: &[String]) {
     // keep panics quiet: they are reported as outcomes
     std::panic::set_hook(Box::new(|_| {}));
@@ -721,6 +748,7 @@ pub fn main(args: &[String]) {
         "occ" => cmd_occ(),
         "walk" => cmd_walk(&args[1..]),
         "fen" => cmd_fen(),
+        "accepts" => cmd_accepts(),
         "tofen" => cmd_tofen(),
         "randfens" => cmd_randfens(&args[1..]),
         "eval" => cmd_eval(),
